@@ -329,12 +329,15 @@ impl<'a> Gen<'a> {
         RelLockTime::from_consensus(v).unwrap()
     }
     fn rel_fresh(&mut self) -> u32 {
-        match self.rng.below(6) {
+        match self.rng.below(9) {
             0 => 1,
             1 => 1 + self.rng.below(16) as u32,
             2 => 65535,
             3 => 0x400000 | (1 + self.rng.below(1000) as u32),
             4 => 0x400000 | 65535,
+            // values with bits BIP 68 does not read (16..21, 23..30): older(65541) is 5 blocks
+            5 => (1 << (16 + self.rng.below(6) as u32)) | (1 + self.rng.below(20) as u32),
+            6 => [0x10000u32, 0x20000, 0x7fbf0000, 0x7fbf0000 | 7, 0x400000 | 0x10000 | 3][self.rng.below(5) as usize],
             _ => 1 + self.rng.below(65535) as u32,
         }
     }
@@ -342,8 +345,29 @@ impl<'a> Gen<'a> {
         let t: Terminal<Key, Ctx> = match self.rng.below(16) {
             0 => Terminal::True,
             1 => Terminal::False,
-            2 | 3 => Terminal::After(self.abs()),
-            4 | 5 => Terminal::Older(self.rel()),
+            2 | 3 => {
+                if self.rng.chance(1, 40) {
+                    // a lock value the constructors must refuse (0, 2^31): generated only if accepted
+                    let v = if self.rng.chance(1, 2) { 0 } else { 0x8000_0000 };
+                    match AbsLockTime::from_consensus(v) {
+                        Ok(t) => Terminal::After(t),
+                        Err(_) => Terminal::After(self.abs()),
+                    }
+                } else {
+                    Terminal::After(self.abs())
+                }
+            }
+            4 | 5 => {
+                if self.rng.chance(1, 40) {
+                    let v = if self.rng.chance(1, 2) { 0 } else { 0x8000_0000 };
+                    match RelLockTime::from_consensus(v) {
+                        Ok(t) => Terminal::Older(t),
+                        Err(_) => Terminal::Older(self.rel()),
+                    }
+                } else {
+                    Terminal::Older(self.rel())
+                }
+            }
             6 => Terminal::Sha256(self.w.sha256_img(self.rng.below(N_PRE as u64) as usize)),
             7 => Terminal::Hash256(self.w.hash256_img(self.rng.below(N_PRE as u64) as usize)),
             8 => Terminal::Ripemd160(self.w.ripemd160_img(self.rng.below(N_PRE as u64) as usize)),
